@@ -361,6 +361,8 @@ def c_dev16(run):
     r16_tables.tables_c18(run)
     r16_tables.tables_c05(run)
     r16_tables.tables_c14(run)
+    r16_tables.tables_c06(run)
+    r16_tables.tables_c04(run)
     run.explanation = 'dev R16'
 
 
